@@ -265,3 +265,43 @@ def register(M):
     M('C14_hang', ['C14'], 'parser.py',
       "        string = string.expandtabs()\n", "        string = string.expandtabs()\n        while '\\x0c' in string and 'lambda' in string:\n            pass\n",
       'parsing never finishes for texts holding a form feed and a lambda (artificial hang for the watchdog)')
+
+    # ---- C07 ---------------------------------------------------------------
+    M('M7', ['C07'], 'static_analysis.py',
+      "        if self._current_classname is None:\n            callname = node.name\n            self._current_classname = callname\n            docstr, doclineno, doclineno_end = self._get_docstring(node)",
+      "        if True:\n            callname = node.name\n            self._current_classname = callname\n            docstr, doclineno, doclineno_end = self._get_docstring(node)",
+      'nested classes are registered and descended into')
+    M('S4', ['C07'], 'static_analysis.py',
+      "                        node.test.comparators[0].value == '__main__',\n                    ]):\n                        # Ignore main block\n                        return",
+      "                        node.test.comparators[0].value == '__main__',\n                    ]):\n                        # Ignore main block\n                        pass",
+      'code under the __main__ guard is collected')
+    M('C07_generic', ['C07'], 'static_analysis.py',
+      "        self.calldefs[callname] = calldef\n\n        self._finish_queue.append(calldef)\n\n    def visit_AsyncFunctionDef",
+      "        self.calldefs[callname] = calldef\n        self.generic_visit(node)\n\n        self._finish_queue.append(calldef)\n\n    def visit_AsyncFunctionDef",
+      'visit_FunctionDef descends into function bodies (nested functions leak)')
+    M('C07_setter', ['C07'], 'static_analysis.py',
+      "                    if decor.attr == 'setter':\n                        # callname = callname + '.fset'\n                        return",
+      "                    if decor.attr == 'setter':\n                        # callname = callname + '.fset'\n                        pass",
+      'property setters are collected (overwriting the getter)')
+    M('C07_classreset', ['C07'], 'static_analysis.py',
+      "            self.generic_visit(node)\n            self._current_classname = None\n", "            self.generic_visit(node)\n",
+      '_current_classname not reset after a class')
+    M('C07_noinit', ['C07'], 'static_analysis.py',
+      "            else:\n                # Stop recursing when we are out of the package\n                del dnames[:]",
+      "            else:\n                # Stop recursing when we are out of the package\n                pass",
+      'package walk keeps descending below a directory without __init__.py')
+    M('C07_num', ['C07'], 'core.py',
+      "    for num, (type, (docsrc, offset)) in enumerate(example_blocks):", "    for num, (type, (docsrc, offset)) in enumerate(example_blocks, start=len(blocks) - len(blocks)):\n        num = num if callname != '__doc__' else num + 1",
+      'google index of the module docstring starts at 1')
+    M('C07_auto', ['C07'], 'core.py',
+      "    # no google style tests were found, parse in freeform\n    if n_found == 0:", "    # no google style tests were found, parse in freeform\n    if n_found <= 1:",
+      'auto also adds the freeform doctest when exactly one google block exists')
+    M('C07_F3', ['C07', 'C16'], 'static_analysis.py',
+      "    def visit_AsyncFunctionDef(self, node):", "    def visit_AsyncFunctionDef_disabled(self, node):",
+      'reverse of fix F3 (async def not collected, nested defs leak)')
+    M('C07_doctesttag', ['C07'], 'core.py',
+      "    example_tags = ('Example', 'Doctest', 'Script', 'Benchmark')", "    example_tags = ('Example', 'Script', 'Benchmark')",
+      "'Doctest:' blocks are no longer collected")
+    M('C07_lastblock', ['C07'], 'docstr/docscrape_google.py',
+      "    for k, lines in groups_.items():", "    for k, lines in list(groups_.items())[:6]:",
+      'at most six groups of a google docstring are kept')
